@@ -187,12 +187,29 @@ func (c *SpecCtx) Eval(e SExpr) Val {
 			n.vars[k] = vv
 		}
 		var binds []string
-		for _, bv := range e.Vars {
+		var guards []string
+		for i, bv := range e.Vars {
 			name := x.S.Fresh("q_" + bv + "_")
+			if i < len(e.Types) && e.Types[i] != "" {
+				t := c.lookupType(e.Types[i])
+				n.vars[bv] = Val{S: name, T: t}
+				binds = append(binds, "("+name+" "+x.te.Sort(t)+")")
+				if g := x.wf(name, t, c.st, 0); g != "true" {
+					guards = append(guards, g)
+				}
+				continue
+			}
 			n.vars[bv] = specVal(name, "Int")
 			binds = append(binds, "("+name+" Int)")
 		}
 		body := n.Bool(e.Body)
+		if len(guards) > 0 {
+			if e.Forall {
+				body = Imp(And(guards...), body)
+			} else {
+				body = And(append(guards, body)...)
+			}
+		}
 		q := "exists"
 		if e.Forall {
 			q = "forall"
